@@ -11,6 +11,9 @@ Reading guide.  A Python float is the rational it denotes; "decimal with at most
 `m / 10^i`, `i ≤ 7`.  `small` is the constant `SMALL = 1e-8` of `_fraction.py`.
 -/
 import Barril.Proofs.FracLemmas
+import Barril.Proofs.FracText
+import Barril.Proofs.FracCF
+import Barril.Proofs.FracDigits
 import Barril.Props.C01
 
 namespace Barril.Frac
@@ -346,5 +349,88 @@ theorem db_convert_value {db : Db} {cq fromU toU c : Sym} {fv r : FV} (hne : (fr
   refine ⟨⟨r.value, ⟨0⟩⟩, ?_, by simp [FV.value, Frac.toFloat], rfl⟩
   unfold dbConvertFV
   simp [hne, ht, hc, hr, FV.init, setFraction, FracArg.default, h0]
+
+/-! ## 6. formatting followed by parsing gives the value back -/
+
+/-- **`CreateFromString(str(fv)) = fv` exactly** (number, numerator, denominator) for every number
+with at most six significant digits and `1e-4 ≤ |number| < 1e6` or `0` (`Printable`: integers and
+short decimals, either sign) and every fraction whose reduced numerator and denominator are below a
+million.  `str` is the `%g` model, `parse` the two regular expressions as a backtracking matcher. -/
+theorem parse_format (v : FV) (hn : Printable v.number) (hnum : v.frac.numerator.natAbs < 1000000)
+    (hden : v.frac.denominator < 1000000) : parse v.str = .ok v := by
+  apply parse_str v hn hnum
+  unfold Frac.denominator at hden
+  exact_mod_cast hden
+
+/-- what `%g` prints for such a number: its digits in fixed notation, exactly (no rounding, no
+exponent); integers below a million print as their decimal digits -/
+theorem format_exact (q : Rat) (r s : Nat) (hr : 100000 ≤ r) (hr' : r < 1000000) (hs : s ≤ 9)
+    (hq : |q| = (r : Rat) / 10 ^ s) (n : Nat) (hn : n < 1000000) :
+    fmtG q = (if q < 0 then '-' :: renderFixed r s else renderFixed r s)
+    ∧ readUnsigned (renderFixed r s) = .ok |q|
+    ∧ fmtG (n : Rat) = natDigits n ∧ readDigits (natDigits n) = n := by
+  refine ⟨fmtG_fixed q r s hr hr' hs hq, ?_, fmtG_nat n hn, readDigits_natDigits n⟩
+  rw [hq]; exact readUnsigned_numText (renderFixed_numText r s)
+
+/-- **outside that domain the statement is false: `%g` switches to exponent notation, which the
+parser rejects** (known finding `g-exponent`): `str(FractionValue(1000000)) = "1e+06"` -/
+theorem parse_format_exponent_counterexample :
+    (⟨1000000, ⟨0⟩⟩ : FV).str = ['1', 'e', '+', '0', '6']
+    ∧ parse (⟨1000000, ⟨0⟩⟩ : FV).str = .error .value := by
+  constructor <;> decide +kernel
+
+/-! ### non-vacuity -/
+
+example : Printable (21 / 4) := Or.inr ⟨525000, 5, by norm_num, by norm_num, by norm_num, by norm_num⟩
+example : Printable (-3 / 10000) := Or.inr ⟨300000, 9, by norm_num, by norm_num, by norm_num, by
+  rw [abs_of_neg (by norm_num)]; norm_num⟩
+example : (⟨21 / 4, ⟨-3 / 4⟩⟩ : FV).str = ['5', '.', '2', '5', ' ', '-', '3', '/', '4'] := by decide +kernel
+example : parse ['5', '.', '2', '5', ' ', '-', '3', '/', '4'] = .ok ⟨21 / 4, ⟨-3 / 4⟩⟩ := by decide +kernel
+/-- the regular expression backtracks: "1.25.5/4" is read as 1.2 and 5.5/4 -/
+example : parse ['1', '.', '2', '5', '.', '5', '/', '4'] = .ok ⟨6 / 5, ⟨11 / 8⟩⟩ := by decide +kernel
+example : parse ['1', '/', '0'] = .error .assertion := by decide +kernel
+example : parse ['5', ',', '5', ' ', '1', '/', '2'] = .error .value := by decide +kernel
+
+/-! ## 7. `CreateFromFloat` -/
+
+/-- an integer-valued float becomes `FractionValue(value)` -/
+theorem createFromFloat_int (z : Int) :
+    ∃ v, createFromFloat (z : Rat) = .ok v ∧ v.value = z := by
+  refine ⟨⟨z, ⟨0⟩⟩, createFromFloat_of_int (by simp), by simp [FV.value, Frac.toFloat]⟩
+
+/-- **the continued-fraction loop in exact arithmetic returns the reduced fraction of its target**
+`0 < t < 1` (numerator below `2^498`), whatever the numerator bound `maxNum ≥ t.num`: it never
+stops on a repeated value, never divides by zero, never runs out of its 998 passes -/
+theorem createFromFloat_loop_exact {t : Rat} (h0 : 0 < t) (h1 : t < 1) {maxNum : Int} (hmax : t.num ≤ maxNum)
+    (hsize : t.num < 2 ^ 498) :
+    cfLoop t maxNum 998 (cfInit t) = .ok (t.num, (t.den : Int)) := cfLoop_exact h0 h1 hmax hsize
+
+/-- **`CreateFromFloat(d)` denotes `d` exactly** for every decimal `d` (any number of significant
+digits up to 100 decimal places, either sign) with `1e-4 ≤ |d| < 1e16`, and for every integer:
+`str(value)` is in fixed notation there, `GetFractionalPart` returns `d - floor d`,
+`GetMaxNumerator` is the digit string read as a number and bounds every convergent's numerator,
+and the loop ends on the reduced fraction of the fractional part.  (In exact arithmetic; the float
+loop is tied to this model by the correspondence.) -/
+theorem createFromFloat_exact (d : Rat) (k : Nat) (hk : k ≤ 100) (hd : (d * 10 ^ k).den = 1)
+    (hlo : 1 / 10 ^ 4 ≤ |d|) (hhi : |d| < 10 ^ 16) : ∃ v, createFromFloat d = .ok v ∧ v.value = d :=
+  createFromFloat_decimal d k hk hd hlo hhi
+
+/-- **for `0 < |x| < 1e-4` the code is wrong** (known finding `repr-exponent`): `str(x)` is in
+exponent notation and `GetFractionalPart` keeps the exponent: `CreateFromFloat(1.5e-07)` is `5e-08` -/
+theorem createFromFloat_tiny_counterexample :
+    createFromFloat (3 / 20000000) = .ok ⟨0, ⟨1 / 20000000⟩⟩ := by decide +kernel
+
+/-! ### non-vacuity -/
+
+/-- the hypotheses of `createFromFloat_exact` on -2.75 (two decimal places) -/
+example : ∃ v, createFromFloat (-11 / 4) = .ok v ∧ v.value = -11 / 4 :=
+  createFromFloat_exact (-11 / 4) 2 (by norm_num) (by norm_num)
+    (by rw [abs_of_neg (by norm_num)]; norm_num) (by rw [abs_of_neg (by norm_num)]; norm_num)
+example : createFromFloat (3 / 8) = .ok ⟨0, ⟨3 / 8⟩⟩ := by decide +kernel
+example : createFromFloat (-11 / 4) = .ok ⟨-2, ⟨-3 / 4⟩⟩ := by decide +kernel
+example : createFromFloat (12345678 / 100000000) = .ok ⟨0, ⟨6172839 / 50000000⟩⟩ := by decide +kernel
+example : decParts (|(-11 / 4 : Rat)|) = some ⟨275, 3, 1⟩ := by decide +kernel
+example : getFractionalPart (|(-11 / 4 : Rat)|) ⟨275, 3, 1⟩ = 3 / 4 := by decide +kernel
+example : decParts (3 / 4) = some ⟨75, 2, 0⟩ ∧ getMaxNumerator ⟨75, 2, 0⟩ = 75 := by decide +kernel
 
 end Barril.Frac
